@@ -59,12 +59,16 @@ impl Plan {
     }
 }
 
-fn filler(rng: &mut Rng) -> Option<Op> {
+/// What a worker does between two calls. The machine is shared: no long busy loops; programs with many threads
+/// (`big`) always sleep between calls so that only a few of their threads are runnable at any moment.
+fn filler(rng: &mut Rng, big: bool) -> Option<Op> {
+    if big {
+        return Some((4, rng.range(50, 2000) as u32));
+    }
     match rng.below(8) {
-        0 | 1 => Some((2, 0)),
-        2 => Some((3, rng.range(1, 400) as u32)),
-        3 => Some((3, rng.range(400, 20_000) as u32)),
-        4 => Some((4, rng.range(1, 300) as u32)),
+        0 | 1 | 2 => Some((2, 0)),
+        3 => Some((3, rng.range(1, 2000) as u32)),
+        4 | 5 => Some((4, rng.range(1, 300) as u32)),
         _ => None,
     }
 }
@@ -92,13 +96,17 @@ pub fn gen_plan(rng: &mut Rng) -> Plan {
         // storms: some threads are short-lived (0-1 calls), so they exit while others arrive
         let k = if storm && rng.chance(1, 3) { rng.range(0, 1) } else { rng.range(1, kmax) };
         let mut v: Vec<Op> = vec![];
-        if rng.chance(1, 3) {
-            if let Some(f) = filler(rng) { v.push(f); }
+        let big = n > 12;
+        if big {
+            // staggered start
+            v.push((4, (rng.range(0, 20) * 200) as u32));
+        } else if rng.chance(1, 3) {
+            if let Some(f) = filler(rng, false) { v.push(f); }
         }
         for _ in 0..k {
             if uses_b && rng.chance(1, 3) { v.push((1, 0)); } else { v.push((0, 0)); }
             if uses_b && rng.chance(1, 4) { v.push((1, 0)); }
-            if let Some(f) = filler(rng) { v.push(f); }
+            if let Some(f) = filler(rng, big) { v.push(f); }
         }
         ops.push(v);
     }
@@ -117,7 +125,7 @@ pub fn gen_plan(rng: &mut Rng) -> Plan {
         for c in chunks {
             let mut main_ops = vec![];
             if rng.chance(1, 2) { main_ops.push((0u8, 0u32)); }
-            if let Some(f) = filler(rng) { main_ops.push(f); }
+            if let Some(f) = filler(rng, false) { main_ops.push(f); }
             // join some threads of earlier waves while this wave is being born
             let mut join = vec![];
             for &t in &spawned {
@@ -130,9 +138,10 @@ pub fn gen_plan(rng: &mut Rng) -> Plan {
             waves.push(Wave { spawn: c, main_ops, join });
         }
     }
-    let pin = match rng.below(4) {
-        0 => vec![rng.below(16) as usize],
-        1 => { let a = rng.below(16) as usize; vec![a, (a + 1 + rng.below(15) as usize) % 16] }
+    // (only the length matters: the program pins itself to the first 1-2 CPUs of the set the harness confines it to)
+    let pin = match rng.below(8) {
+        0 => vec![0],
+        1 => vec![0, 1],
         _ => vec![],
     };
     Plan { n, ops, waves, pin, storm, uses_b, hammer: false }
@@ -163,6 +172,7 @@ pub fn source(p: &Plan) -> String {
 extern "C" {
     fn syscall(n: i64, ...) -> i64;
     fn sched_setaffinity(pid: i32, size: usize, mask: *const u64) -> i32;
+    fn sched_getaffinity(pid: i32, size: usize, mask: *mut u64) -> i32;
 }
 #[inline(never)]
 #[no_mangle]
@@ -202,8 +212,8 @@ fn main() {
     let mut acc = anchor(1);
 "#);
     if !p.pin.is_empty() {
-        let mask: u64 = p.pin.iter().fold(0, |m, c| m | (1u64 << c));
-        writeln!(s, "    unsafe {{ let m: u64 = {mask}; sched_setaffinity(0, 8, &m); }}").unwrap();
+        // pin to the first 1-2 CPUs of the set the harness has confined this process to
+        writeln!(s, "    unsafe {{ let mut cur: u64 = 0; sched_getaffinity(0, 8, &mut cur); let mut m: u64 = 0; let mut left = {}; for c in 0..64 {{ if left > 0 && cur & (1 << c) != 0 {{ m |= 1 << c; left -= 1; }} }} if m != 0 {{ sched_setaffinity(0, 8, &m); }} }}", p.pin.len()).unwrap();
     }
     writeln!(s, "    let mut handles: Vec<Option<std::thread::JoinHandle<()>>> = (0..N).map(|_| None).collect();").unwrap();
     for w in &p.waves {
@@ -263,6 +273,7 @@ struct HPlan {
     delay_seed: u64,
     delay_max_us: u64,
     pin_tracer: Vec<usize>,
+    cpus: Vec<usize>,
     seed: u64,
 }
 
@@ -281,7 +292,11 @@ fn gen_hplan(rng: &mut Rng, p: &Plan, idx: usize) -> HPlan {
         _ => (rng.next() | 1, 3000),
     };
     let pin_tracer = if rng.chance(1, 5) { vec![rng.below(16) as usize] } else { vec![] };
-    HPlan { bp_a, bp_b, mix, toggle, delay_seed, delay_max_us, pin_tracer, seed: rng.next() }
+    // the machine is shared: every debuggee is confined to 1-3 CPUs (a program that pins itself narrows that further)
+    let ncpu = match rng.below(20) { 0..=2 => 1, 3..=9 => 2, _ => 3 };
+    let first = rng.below(16) as usize;
+    let cpus: Vec<usize> = if pin_tracer.is_empty() { (0..ncpu).map(|i| (first + i * (1 + rng.below(4) as usize)) % 16).collect() } else { pin_tracer.clone() };
+    HPlan { bp_a, bp_b, mix, toggle, delay_seed, delay_max_us, pin_tracer, cpus, seed: rng.next() }
 }
 
 // ---------------------------------------------------------------------------------------------
@@ -391,15 +406,14 @@ impl<'a> Child<'a> {
 }
 
 fn history_child(log: &mut iso::Log, bin: &Path, slots_off: u64, inc_a: u64, inc_b: u64, nslots: usize, hp: &HPlan) {
-    if !hp.pin_tracer.is_empty() {
-        let mask: u64 = hp.pin_tracer.iter().fold(0, |m, c| m | (1u64 << c));
-        unsafe { libc::sched_setaffinity(0, 8, &mask as *const u64 as *const libc::cpu_set_t) };
-    }
     let t0 = std::time::Instant::now();
     let mut s = match e2e::launch(bin, &[]) {
         Ok(s) => s,
         Err(e) => { log.put(json!({"ev": "error", "what": format!("launch: {e}")})); return; }
     };
+    // the machine is shared: the debuggee (forked, waiting for its start) is confined to 1-3 CPUs, its threads inherit that
+    let mask: u64 = hp.cpus.iter().fold(0, |m, c| m | (1u64 << c));
+    unsafe { libc::sched_setaffinity(s.pid_now().as_raw(), 8, &mask as *const u64 as *const libc::cpu_set_t) };
     let ms_launch = t0.elapsed().as_millis() as u64;
     log.put(json!({"ev": "launched", "ms": ms_launch}));
     let anchor = match s.dbg.set_breakpoint_at_fn("anchor") {
@@ -411,6 +425,10 @@ fn history_child(log: &mut iso::Log, bin: &Path, slots_off: u64, inc_a: u64, inc
         return;
     }
     s.events.take();
+    if !hp.pin_tracer.is_empty() {
+        // tracer and debuggee compete for one CPU from here on (the loading of debug information is over)
+        unsafe { libc::sched_setaffinity(0, 8, &mask as *const u64 as *const libc::cpu_set_t) };
+    }
     let ms_start = t0.elapsed().as_millis() as u64;
     log.put(json!({"ev": "started", "ms": ms_start}));
     let pid = s.pid_now();
@@ -987,7 +1005,7 @@ fn run_program(seed: u64, pi: usize, scratch: &str, per_prog: usize) -> Value {
             let (allstop_ok, allstop_bad) = rust_spec_parts(&ops, &init);
             let kinds: Vec<&str> = ops.iter().map(|o| o["kind"].as_str().unwrap_or("?")).collect();
             let nkind = |k: &str| kinds.iter().filter(|x| **x == k).count();
-            let meta = json!({"program": name, "history": hi, "threads": plan.n + 1, "storm": plan.storm, "self_pin": plan.pin, "tracer_pin": hp.pin_tracer,
+            let meta = json!({"program": name, "history": hi, "threads": plan.n + 1, "storm": plan.storm, "self_pin": plan.pin, "tracer_pin": hp.pin_tracer, "debuggee_cpus": hp.cpus,
                 "bp_a": format!("{:?}", hp.bp_a), "bp_b": format!("{:?}", hp.bp_b), "mix": format!("{:?}", hp.mix), "toggles": toggles, "directed_toggles": directed_toggles, "stops_with_pending_trap": pending_stops, "stops_with_pending_trap_of_a": pending_at_a, "hammer": plan.hammer,
                 "delay_max_us": hp.delay_max_us, "delays": delays, "ops": ops.len(), "stops": stops, "stepi": nkind("stepi"), "next": nkind("next"), "out": nkind("out"), "focus": nkind("focus")});
             let meta2 = json!({"ms_launch": init["ms_launch"], "ms_start": init["ms_start"], "ms_total": child_ms, "us_ops": ops.iter().map(|o| o["us_op"].as_u64().unwrap_or(0)).sum::<u64>(), "us_ops_obs": ops.iter().map(|o| o["us_all"].as_u64().unwrap_or(0)).sum::<u64>(),
@@ -1009,7 +1027,8 @@ fn run_program(seed: u64, pi: usize, scratch: &str, per_prog: usize) -> Value {
             bump(&mut hist, format!("mix:{:?}", hp.mix));
             bump(&mut hist, format!("delay-max-us:{}", hp.delay_max_us));
             bump(&mut hist, format!("tracer-pinned:{}", !hp.pin_tracer.is_empty()));
-            bump(&mut hist, format!("debuggee-pinned:{}", !plan.pin.is_empty() || !hp.pin_tracer.is_empty()));
+            bump(&mut hist, format!("debuggee-cpus:{}", if !plan.pin.is_empty() { plan.pin.len().min(hp.cpus.len()) } else { hp.cpus.len() }));
+            bump(&mut hist, format!("debuggee-self-pinned:{}", !plan.pin.is_empty()));
             bump(&mut hist, format!("bp:{:?}/{:?}", hp.bp_a, hp.bp_b));
             bump(&mut hist, format!("stops:{}", match stops { 0 => "0", 1 => "1", 2..=9 => "2-9", 10..=29 => "10-29", 30..=99 => "30-99", _ => "100+" }));
             bump(&mut hist, format!("threads-seen:{}", match max_threads { 0..=1 => "1", 2..=4 => "2-4", 5..=8 => "5-8", 9..=16 => "9-16", 17..=40 => "17-40", _ => "41-65" }));
@@ -1047,6 +1066,9 @@ fn run_program(seed: u64, pi: usize, scratch: &str, per_prog: usize) -> Value {
 
 /// `c09-e2e-worker <seed> <program index> <result file> <scratch> <histories per program>`
 pub fn run_worker(args: &[String]) -> i32 {
+    if std::env::var("RAYON_NUM_THREADS").is_err() {
+        unsafe { std::env::set_var("RAYON_NUM_THREADS", "3") };
+    }
     let seed: u64 = args.first().and_then(|s| s.parse().ok()).unwrap_or(1);
     let pi: usize = args.get(1).and_then(|s| s.parse().ok()).unwrap_or(0);
     let Some(out) = args.get(2) else { return 2 };
@@ -1056,14 +1078,16 @@ pub fn run_worker(args: &[String]) -> i32 {
     if std::fs::write(out, v.to_string()).is_err() { 3 } else { 0 }
 }
 
-/// `c09-e2e <seed> <programs> <cases dir> <scratch> [histories per program = 5] [parallel workers = 6]`
+/// `c09-e2e <seed> <programs> <cases dir> <scratch> [histories per program = 5] [parallel workers = 4, at most 4]`
 pub fn run(args: &[String]) -> i32 {
     let seed: u64 = args.first().and_then(|s| s.parse().ok()).unwrap_or(1);
     let nprog: usize = args.get(1).and_then(|s| s.parse().ok()).unwrap_or(4);
     let out_dir = args.get(2).cloned().unwrap_or_else(|| "../coq/cases".into());
     let scratch = args.get(3).cloned().unwrap_or_else(|| "/verif/.scratch/c09".into());
     let per_prog: usize = args.get(4).and_then(|s| s.parse().ok()).unwrap_or(5);
-    let jobs: usize = args.get(5).and_then(|s| s.parse().ok()).unwrap_or(6).max(1);
+    // the machine is shared with other checks: at most 4 worker processes, each debugger loads debug information with
+    // 3 threads instead of one per core (RAYON_NUM_THREADS), each debuggee is confined to 1-3 CPUs
+    let jobs: usize = args.get(5).and_then(|s| s.parse().ok()).unwrap_or(4).clamp(1, 4);
     let _ = std::fs::create_dir_all(&scratch);
     let t_start = std::time::Instant::now();
     let exe = std::env::current_exe().unwrap_or_else(|_| PathBuf::from("bsv"));
@@ -1078,6 +1102,7 @@ pub fn run(args: &[String]) -> i32 {
             let out = format!("{scratch}/res_{seed}_{next}.json");
             let _ = std::fs::remove_file(&out);
             match std::process::Command::new(&exe).args(["c09-e2e-worker", &seed.to_string(), &next.to_string(), &out, &scratch, &per_prog.to_string()])
+                .env("RAYON_NUM_THREADS", "3")
                 .stdout(std::process::Stdio::null()).stderr(std::process::Stdio::null()).spawn() {
                 Ok(ch) => running.push((next, ch, out)),
                 Err(e) => errors.push(format!("worker {next}: {e}")),
@@ -1193,6 +1218,18 @@ fn main() {
 
 /// `c09-repro <scratch>`: prints what the two known findings look like on a fixed program
 pub fn run_repro(args: &[String]) -> i32 {
+    if std::env::var("RAYON_NUM_THREADS").is_err() {
+        unsafe { std::env::set_var("RAYON_NUM_THREADS", "3") };
+    }
+    // the machine is shared: everything this reproduction starts stays on three CPUs
+    {
+        let mut cur = [0u64; 16];
+        unsafe { libc::sched_getaffinity(0, 128, cur.as_mut_ptr() as *mut libc::cpu_set_t) };
+        let mut m = 0u64;
+        let mut left = 3;
+        for c in (0..64).rev() { if left > 0 && cur[0] & (1 << c) != 0 { m |= 1 << c; left -= 1; } }
+        if m != 0 { unsafe { libc::sched_setaffinity(0, 8, &m as *const u64 as *const libc::cpu_set_t) }; }
+    }
     let scratch = args.first().cloned().unwrap_or_else(|| "/verif/.scratch/c09".into());
     let bin = match e2e::compile(&scratch, "c09_repro", REPRO_SRC, &[], None) {
         Ok(b) => b,
